@@ -17,6 +17,7 @@
       carquet_dictionary_decode_*               Enc/DictModel.v (enc2)      Enc/DictProofs.v + Dec/DecSafety.v
       PLAIN, DELTA_*, BYTE_STREAM_SPLIT         Enc/*Model.v (enc2)         Enc/*Proofs.v
       carquet_snappy_/lz4_decompress            Comp/*Model.v (comp)        Comp/*Proofs.v
+      parquet_parse_file_metadata/_page_header  Thrift/ParquetMetaModel.v   Thrift/ParquetMetaProofs.v (thrift engine)
       thrift_skip                               Thrift/ThriftModel.v        Thrift/ThriftProofs.v
       carquet_gzip_/zstd_decompress             Dec/WrapperModel.v          same file; PARTIAL: zlib / libzstd are
                                                                             Section variables with assumed bounds
@@ -27,8 +28,10 @@
 From Coq Require Import NArith ZArith List.
 From Carquet Require Import Base.Res Enc.BitpackModel Enc.RleModel
   Dec.LevelsModel Dec.LevelsProofs Dec.WrapperModel Dec.DecSafety
-  Comp.CompBase Comp.CompMem Comp.SnappyModel Comp.SnappyProofs Comp.Lz4Model Comp.Lz4Proofs
-  Thrift.ThriftModel Thrift.ThriftProofs.
+  Comp.CompBase Comp.CompMem Comp.SnappySpec Comp.SnappyModel Comp.SnappyProofs Comp.Lz4Spec Comp.Lz4Model Comp.Lz4Proofs
+  Thrift.ThriftModel Thrift.ThriftProofs Thrift.ParquetMetaDesc Thrift.ParquetMetaModel Thrift.ParquetMetaProofs
+  Enc.DeltaBits Enc.PlainModel Enc.PlainProofs Enc.BssModel Enc.BssProofs Enc.DeltaModel Enc.DeltaProofs
+  Enc.DeltaLenModel Enc.DeltaStrModel Enc.DeltaStrProofs Enc.DictModel Enc.DictRleInst.
 Import ListNotations.
 Local Open Scope N_scope.
 
@@ -109,12 +112,130 @@ Theorem lz4_decompress_never_faults : forall s cap f, bytes s -> Lz4Model.decomp
 Proof. exact lz4_decompress_never_faults_thm. Qed.
 Print Assumptions lz4_decompress_never_faults.
 
+(** an OK result never exceeds the destination capacity *)
+Theorem snappy_decompress_size_le_cap : forall s x cap, bytes s -> SnappyModel.decompress s cap = Ok x -> nlen x <= cap.
+Proof. exact DecSafety.snappy_decompress_size_le_cap. Qed.
+Print Assumptions snappy_decompress_size_le_cap.
+
+Theorem lz4_decompress_size_le_cap : forall s x cap, bytes s -> Lz4Model.decompress s cap = Ok x -> nlen x <= cap.
+Proof. exact DecSafety.lz4_decompress_size_le_cap. Qed.
+Print Assumptions lz4_decompress_size_le_cap.
+
 (* ------------------------------------------------------------------ Thrift (thrift engine) *)
 
 (** thrift_skip, which every unknown or unparsed field of parquet_parse_file_metadata / _page_header goes through *)
 Theorem thrift_skip_never_faults : forall ty d f, thrift_skip ty d <> Fault f.
 Proof. exact skip_never_faults_all. Qed.
 Print Assumptions thrift_skip_never_faults.
+
+(** parquet_parse_file_metadata / parquet_parse_page_header on arbitrary bytes: no read outside the buffer, the
+    struct-nesting fuel and the skip depth are not exhausted; the bytes consumed lie within the input *)
+Theorem parse_file_metadata_never_faults : forall bs f, parse_file_metadata bs <> Fault f.
+Proof. exact ParquetMetaProofs.parse_file_metadata_never_faults. Qed.
+Print Assumptions parse_file_metadata_never_faults.
+
+Theorem parse_page_header_never_faults : forall bs f, parse_page_header bs <> Fault f.
+Proof. exact ParquetMetaProofs.parse_page_header_never_faults. Qed.
+Print Assumptions parse_page_header_never_faults.
+
+Theorem parse_page_header_consumed : forall bs r c, parse_page_header bs = Ok (r, c) -> c <= N.of_nat (length bs).
+Proof. exact ParquetMetaProofs.parse_page_header_consumed. Qed.
+Print Assumptions parse_page_header_consumed.
+
+Theorem parse_file_metadata_consumed : forall bs r c, parse_file_metadata bs = Ok (r, c) -> c <= N.of_nat (length bs).
+Proof. exact ParquetMetaProofs.parse_file_metadata_consumed. Qed.
+Print Assumptions parse_file_metadata_consumed.
+
+(* ------------------------------------------------------------------ PLAIN (enc2 engine) *)
+
+(** INT32 / INT64 / FLOAT / DOUBLE ([k] = 4, 8): the count is the declared capacity *)
+Theorem plain_fixed_never_faults : forall k bs count f, dec_fixed k bs count <> Fault f.
+Proof. exact PlainProofs.plain_fixed_never_faults. Qed.
+Print Assumptions plain_fixed_never_faults.
+
+Theorem plain_fixed_result_size : forall k bs count vs c, (0 < k)%nat -> dec_fixed k bs count = Ok (vs, c) ->
+  len vs = count /\ c <= len bs.
+Proof. exact PlainProofs.plain_fixed_result_size. Qed.
+Print Assumptions plain_fixed_result_size.
+
+Theorem plain_int96_never_faults : forall bs count f, plain_decode_int96 bs count <> Fault f.
+Proof. exact PlainProofs.plain_int96_never_faults. Qed.
+Print Assumptions plain_int96_never_faults.
+
+(** BOOLEAN: count is an int64_t *)
+Theorem plain_boolean_never_faults : forall bs count, count < 2 ^ 63 -> forall f, plain_decode_boolean bs count <> Fault f.
+Proof. exact PlainProofs.plain_boolean_never_faults. Qed.
+Print Assumptions plain_boolean_never_faults.
+
+Theorem plain_byte_array_never_faults : forall bs count f, plain_decode_byte_array bs count <> Fault f.
+Proof. exact PlainProofs.plain_byte_array_never_faults. Qed.
+Print Assumptions plain_byte_array_never_faults.
+
+Theorem plain_flba_never_faults : forall bs count flen f, plain_decode_flba bs count flen <> Fault f.
+Proof. exact PlainProofs.plain_flba_never_faults. Qed.
+Print Assumptions plain_flba_never_faults.
+
+(* ------------------------------------------------------------------ DELTA_BINARY_PACKED / DELTA_LENGTH / DELTA_BYTE_ARRAY (enc2) *)
+
+Theorem delta64_decode_never_faults : forall data count f, delta_decode_int64 data count <> Fault f.
+Proof. exact DeltaProofs.delta64_decode_never_faults. Qed.
+Print Assumptions delta64_decode_never_faults.
+
+Theorem delta64_decode_result_size : forall data count vals c, delta_decode_int64 data count = Ok (vals, c) ->
+  len vals = count /\ c <= len data.
+Proof. exact DeltaProofs.delta64_decode_result_size. Qed.
+Print Assumptions delta64_decode_result_size.
+
+Theorem delta32_decode_never_faults : forall data count f, delta_decode_int32 data count <> Fault f.
+Proof. exact DeltaProofs.delta32_decode_never_faults. Qed.
+Print Assumptions delta32_decode_never_faults.
+
+Theorem delta32_decode_result_size : forall data count vals c, delta_decode_int32 data count = Ok (vals, c) ->
+  len vals = count /\ c <= len data.
+Proof. exact DeltaProofs.delta32_decode_result_size. Qed.
+Print Assumptions delta32_decode_result_size.
+
+Theorem delta_length_decode_never_faults : forall data count f, delta_length_decode data count <> Fault f.
+Proof. exact DeltaStrProofs.delta_length_decode_never_faults. Qed.
+Print Assumptions delta_length_decode_never_faults.
+
+Theorem delta_length_decode_result_size : forall data count ss c, delta_length_decode data count = Ok (ss, c) ->
+  len ss = count /\ c <= len data.
+Proof. exact DeltaStrProofs.delta_length_decode_result_size. Qed.
+Print Assumptions delta_length_decode_result_size.
+
+(** [cap] = work_buffer_size: the model's stores into the work buffer are checked against it *)
+Theorem delta_strings_decode_never_faults : forall data count cap f, delta_strings_decode data count cap <> Fault f.
+Proof. exact DeltaStrProofs.delta_strings_decode_never_faults. Qed.
+Print Assumptions delta_strings_decode_never_faults.
+
+Theorem delta_strings_decode_result_size : forall data count cap ss c, delta_strings_decode data count cap = Ok (ss, c) ->
+  len ss <= count /\ c <= len data.
+Proof. exact DeltaStrProofs.delta_strings_decode_result_size. Qed.
+Print Assumptions delta_strings_decode_result_size.
+
+(* ------------------------------------------------------------------ BYTE_STREAM_SPLIT (enc2) *)
+
+Theorem bss_decode_never_faults : forall k data count f, bss_decode k data count <> Fault f.
+Proof. exact BssProofs.bss_decode_never_faults. Qed.
+Print Assumptions bss_decode_never_faults.
+
+Theorem bss_decode_result_size : forall k data count out, bss_decode k data count = Ok out ->
+  len out = count * k /\ count * k <= len data.
+Proof. exact BssProofs.bss_decode_result_size. Qed.
+Print Assumptions bss_decode_result_size.
+
+(* ------------------------------------------------------------------ dictionary indices (enc2 model, carquet's RLE decoder) *)
+
+Theorem dict_decode_never_faults : forall k dict dc indices out_count f,
+  dict_decode_fixed DictRleInst.rle_dec k dict dc indices out_count <> Fault f.
+Proof. exact DecSafety.dict_decode_never_faults_carquet. Qed.
+Print Assumptions dict_decode_never_faults.
+
+Theorem dict_decode_result_size : forall k dict dc indices out_count vs,
+  dict_decode_fixed DictRleInst.rle_dec k dict dc indices out_count = Ok vs -> N.of_nat (length vs) <= out_count.
+Proof. exact DecSafety.dict_decode_result_size_carquet. Qed.
+Print Assumptions dict_decode_result_size.
 
 (* ------------------------------------------------------------------ GZIP / ZSTD wrappers (partial) *)
 
